@@ -5,7 +5,8 @@ use yash_env::system::{Concurrent, Disposition, Sigaction as _, Signals as _};
 use yash_env::{Env, RealSystem};
 use yash_env::semantics::exit_or_raise;
 
-pub fn real_shell_main(args: Vec<String>) -> ! {
+pub fn real_shell_main(mut args: Vec<String>) -> ! {
+    args.insert(0, "yash".to_string());
     // SAFETY: the only RealSystem instance in this process.
     let system = unsafe { RealSystem::new() };
     system.sigaction(RealSystem::SIGPIPE, Disposition::Default).ok();
